@@ -900,9 +900,10 @@ func TestVerif_C08(t *testing.T) {
 		// IP-family-sensitive field are rendered for IPv4 only, and flow logs "on" (which only adds an
 		// NFLOG rule next to the final action) is exercised for every rule with <= 2 non-default dimensions.
 		type job struct {
-			shape c08Shape
-			ipvs  []int
-			flows []bool
+			shape      c08Shape
+			ipvs       []int
+			flows      []bool
+			fullProbes bool // every CIDR edge / port-range end (thorough tier, combination family)
 		}
 		var jobs []job
 		seen := map[string]bool{}
@@ -921,7 +922,7 @@ func TestVerif_C08(t *testing.T) {
 					continue
 				}
 				seen[s2.sig()] = true
-				j := job{shape: s2, ipvs: []int{4, 6}, flows: []bool{false, true}}
+				j := job{shape: s2, ipvs: []int{4, 6}, flows: []bool{false, true}, fullProbes: thorough && !block}
 				if !thorough {
 					if (len(fams) == 1 && s.get("ipVersion") == "") || block {
 						j.ipvs = []int{4}
@@ -976,7 +977,7 @@ func TestVerif_C08(t *testing.T) {
 					nr := 0
 				ipvs:
 					for _, ipv := range j.ipvs {
-						prep := c08Prepare(j.shape, ipv, thorough)
+						prep := c08Prepare(j.shape, ipv, j.fullProbes)
 						before := st
 						for _, kd := range []string{"ipt", "nft"} {
 							for _, fl := range j.flows {
